@@ -60,6 +60,9 @@ func (monC07) AtState(x *Exec) {
 		if delay == 0 {
 			delay = 2
 		}
+		if delay < 0 {
+			continue // Delay left unset (1 ns ticker): "idle for a whole Delay" says nothing at the clock's one-second grain
+		}
 		// m.since describes the previous state: idle (and a sequence action in flight) since then. The ticker was
 		// re-armed at that time, so the clock cannot pass since+delay without the thread starting a new run.
 		if m.since >= 0 {
